@@ -8,11 +8,12 @@ CHECK = {
     "rule": ('scenario = generated UDP traffic (3-8 flows, up to 26 datagrams with payloads from a small pool, cut into 2-5 capture files so flows continue across captures) plus a rapid state-machine history of: importing the next capture(s), tag add / query edit / delete / colour, mark add / remove, converter attach / detach / reset, opening / using / releasing views, and *delivering the completion of a parked background job* (import, tagging, merge, convert) chosen by the generator - every job parks at a gate right before it posts its completion to the service loop, so the order of completions relative to API calls and to each other is generated; '
              "after every step every cached converter output equals the harness's own implementation of the converter function applied to the stream's current chunks; after settling every stream matching a tag with an attached converter has output. Non-trivial: a convert job was delivered and >=2 imports completed (streams extended after they were converted)."),
     "level_text": 'invariant checked after every step of generated histories with generated completion orders; finds lost invalidations / reference-count and snapshot errors that need a specific interleaving; no absence claim',
-    "level_note": "the converter executable is the harness's deterministic convbin; detach-stops-further-runs is only checked indirectly (queues empty at quiescence)",
+    "level_note": "the converter executable is the harness's deterministic convbin; detaching is judged after the jobs in flight at that moment have finished (a job already started keeps its list): from then on the converter's side log must not grow and its queue stays empty, whatever is imported or tagged afterwards",
     "assumptions": [],
     "extra_builds": [{"pkg": "internal/verif/convbin", "out": "convbin"}],
     "campaigns": [
         {"test": "TestVerifC16", "checks": {"quick": 800, "thorough": 40000}, "steps": 40, "shrinktime": "90s", "death_is_violation": True,
          "timeout": {"quick": 600, "thorough": 5400}},
+        {"test": "TestVerifC16Fixed", "fixed": True, "checks": {"quick": 1, "thorough": 1}, "death_is_violation": True},
     ],
 }
